@@ -105,6 +105,8 @@ type tr struct {
 	carriedByName map[string][]AV
 	dataMaps      map[int]bool // collector maps that only ever hold data (from the previous pass)
 	dataMapsNew   map[int]bool
+	ranged        map[int]bool // data maps whose element is ranged over with channel operations in the body
+	rangedNew     map[int]bool
 }
 
 func (t *tr) errorf(n ast.Node, f string, a ...interface{}) {
@@ -247,12 +249,14 @@ func (t *tr) stripTo(c *cont, depth int) {
 
 // ---- emitting --------------------------------------------------------------------------
 
-func short(fset *token.FileSet, n ast.Node) string {
+func short(fset *token.FileSet, n ast.Node) string { return shortN(fset, n, 60) }
+
+func shortN(fset *token.FileSet, n ast.Node, limit int) string {
 	var b bytes.Buffer
 	printer.Fprint(&b, fset, n)
 	s := strings.Join(strings.Fields(b.String()), " ")
-	if len(s) > 60 {
-		s = s[:57] + "..."
+	if len(s) > limit {
+		s = s[:limit-3] + "..."
 	}
 	return s
 }
@@ -294,15 +298,25 @@ func (t *tr) emit1(kind string, arg int, site string) {
 }
 
 // fork emits a branch node with n successors and returns one continuation per successor.
-func (t *tr) fork(n int, site string) []*cont {
+func (t *tr) fork(n int, site string) []*cont { return t.forkL(n, site, "") }
+
+// forkL: what names the decision in the labels of the successors (default: the site text)
+func (t *tr) forkL(n int, site string, what string) []*cont {
 	if !t.live() {
 		return nil
 	}
 	nd := &node{kind: "branch", site: site}
 	var cs []*cont
+	if what == "" {
+		what = site
+		if i := strings.Index(site, " "); i >= 0 && strings.Contains(site[:i], ".go:") {
+			what = site[i+1:]
+		}
+	}
 	for i := 0; i < n; i++ {
 		s := slot()
 		nd.succ = append(nd.succ, s)
+		nd.lab = append(nd.lab, fmt.Sprintf("%s:%d", what, i))
 	}
 	ps := t.cur.ps
 	t.emit(nd)
@@ -516,7 +530,7 @@ func (t *tr) ifStmt(x *ast.IfStmt) []*cont {
 			}
 			continue
 		}
-		cs := t.fork(2, t.site(x, "if "+short(t.fr().pkg.fset, x.Cond)))
+		cs := t.forkL(2, t.site(x, "if "+short(t.fr().pkg.fset, x.Cond)), "if "+shortN(t.fr().pkg.fset, x.Cond, 160))
 		if cs == nil {
 			continue
 		}
@@ -801,6 +815,15 @@ func (t *tr) rangeStmt(label string, x *ast.RangeStmt) []*cont {
 		t.popScope(o)
 		return o
 	}
+	if me, ok := coll.(avMapElem); ok {
+		// a buffer kept in a collector map: whether it is empty matters when the body communicates
+		if t.effectful(t.fr().pkg, x.Body, nil, map[ast.Node]bool{}) {
+			t.rangedNew[me.id] = true
+		}
+		if t.ranged[me.id] && !t.cur.ps.maps[me.id].present {
+			return one(t.cur)
+		}
+	}
 	// bounded loop over data
 	site := t.site(x, "range (data)")
 	test := func() ([]*cont, []*cont) {
@@ -1050,6 +1073,7 @@ func (t *tr) subChan(ch int, k string) int {
 		}
 	}
 	c := t.p.newChan(fmt.Sprintf("%s/%d", t.p.chans[ch].name, n), t.p.chans[ch].cap)
+	t.p.chans[c].env = t.p.chans[ch].env
 	t.chanSub[id] = c
 	return c
 }
